@@ -1,8 +1,9 @@
 SPEC = {
     "id": "C20",
     "level": "other",
-    "sidecars": ["utils"],
-    "functions": ["ural/utils.py:pathsplit", "ural/ensure_protocol.py:ensure_protocol", "ural/force_protocol.py:force_protocol", "ural/strip_protocol.py:strip_protocol"],
+    "sidecars": ["utils", "format_url"],
+    "functions": ["ural/utils.py:pathsplit", "ural/utils.py:add_query_argument", "ural/utils.py:safe_urlsplit", "ural/utils.py:urlpathsplit", "ural/format_url.py:format_query_argument", "ural/format_url.py:URLFormatter.__init__",
+                  "ural/format_url.py:URLFormatter.format", "ural/format_url.py:URLFormatter.__call__", "ural/ensure_protocol.py:ensure_protocol", "ural/force_protocol.py:force_protocol", "ural/strip_protocol.py:strip_protocol"],
     "function_sidecars": {"ural/ensure_protocol.py:ensure_protocol": ["protocol_ensure"], "ural/force_protocol.py:force_protocol": ["protocol_force"],
                           "ural/strip_protocol.py:strip_protocol": ["protocol_strip"]},
     "bounded": ["bcheck.c20"],
@@ -17,5 +18,7 @@ SPEC = {
         "algebraic laws need the semantics of [a-zA-Z]{0,64}:?// which both solvers time out on (DESIGN.md section 1): bounded."),
     "assumptions": ["alphabetic protocols of 1..64 letters (the bound of the pattern)", "item order of the produced query is not demanded, only the multiset",
                     "for a base URL without '?' / '#' the full equality clauses apply; for bases that already carry a query or fragment only inclusion is demanded (and recorded as a known finding)"],
-    "trusted_base": ["bcheck/ref_c20.py reference splitter and strict decoder", "pyvc + z3 for the extra"],
+    "trusted_base": ["bcheck/ref_c20.py reference splitter and strict decoder", "pyvc + z3 for the extra",
+                     "assumed facts about str.split(sep, 1): one piece iff sep does not occur, else s == head + sep + tail with sep not in head; string concatenation is a monoid",
+                     "format_url, quote, the caller's format_value and dict.copy are uninterpreted functions; dict.update is not modelled (the merge of two argument dicts is bounded only)"],
 }
